@@ -41,6 +41,32 @@ type Schedule struct {
 	MapSeed uint64 `json:"mapseed,omitempty"` // 0: maps of the system under test are ranged in sorted key order, else in a permutation drawn from this seed per iteration
 }
 
+// CurrentProperty is the id of the property the process is checking (set by
+// the test driver; used to attribute a crash of directly called code).
+var CurrentProperty string
+
+// panickingFrame returns the function name of the first frame below the
+// runtime's panic machinery in a stack dump of the panicking goroutine.
+func panickingFrame(stack string) string {
+	lines := strings.Split(stack, "\n")
+	seenPanic := false
+	for _, l := range lines {
+		if strings.HasPrefix(l, "\t") || strings.HasPrefix(l, "goroutine ") || l == "" {
+			continue
+		}
+		if strings.HasPrefix(l, "panic(") || strings.HasPrefix(l, "runtime.") {
+			if strings.HasPrefix(l, "panic(") || strings.Contains(l, "runtime.gopanic") || strings.Contains(l, "runtime.panic") || strings.Contains(l, "runtime.sigpanic") || strings.Contains(l, "runtime.goPanic") {
+				seenPanic = true
+			}
+			continue
+		}
+		if seenPanic {
+			return l
+		}
+	}
+	return ""
+}
+
 type prng struct{ x uint64 }
 
 func (p *prng) next() uint64 {
@@ -472,7 +498,20 @@ func Run(t *testing.T, sch Schedule, maxSteps int, body func(sim *Sim)) (res *Re
 				if p := recover(); p != nil {
 					buf := make([]byte, 16<<10)
 					buf = buf[:runtime.Stack(buf, false)]
-					res.Harness = fmt.Sprintf("panic in run body: %v\n%s", p, buf)
+					// whose panic? The frame that panicked comes right after the
+					// runtime's own frames: code of the system under test called
+					// directly by the driver (a store, a query) is a violation of the
+					// property being checked (class crash), anything else is trouble
+					// of the machinery
+					if fr := panickingFrame(string(buf)); strings.Contains(fr, "github.com/high-moctane/mocrelay") && !strings.Contains(fr, "/verifsim.") {
+						prop := CurrentProperty
+						if prop == "" {
+							prop = "?"
+						}
+						sim.Violate(prop, "crash", nil, "panic in %s: %v", fr, p)
+					} else {
+						res.Harness = fmt.Sprintf("panic in run body: %v\n%s", p, buf)
+					}
 				}
 			}()
 			body(sim)
